@@ -625,6 +625,9 @@ fn format_literal(
             output.push('-');
             write_infinity_untyped(output, context);
         }
+        ast::Literal::FloatUntyped(v) if *v == 0.0 && v.is_sign_negative() => {
+            write!(output, "-0.0").unwrap()
+        }
         ast::Literal::FloatUntyped(v) if *v == (*v as i64 as f64) => {
             write!(output, "{}.0", *v as i64).unwrap()
         }
@@ -640,6 +643,9 @@ fn format_literal(
             write_infinity_f16(output, context);
         }
         ast::Literal::Float16(v) if *v == f32::NEG_INFINITY => write!(output, "-INFINITY").unwrap(),
+        ast::Literal::Float16(v) if *v == 0.0 && v.is_sign_negative() => {
+            write!(output, "-0.0h").unwrap()
+        }
         ast::Literal::Float16(v) if *v == (*v as i64 as f32) => {
             write!(output, "{}.0h", *v as i64).unwrap()
         }
@@ -654,6 +660,9 @@ fn format_literal(
         ast::Literal::Float32(v) if *v == f32::MAX && context.target == Target::Msl => {
             output.write_str("FLT_MAX").unwrap()
         }
+        ast::Literal::Float32(v) if *v == 0.0 && v.is_sign_negative() => {
+            write!(output, "-0.0f").unwrap()
+        }
         ast::Literal::Float32(v) if *v == (*v as i64 as f32) => {
             write!(output, "{}.0f", *v as i64).unwrap()
         }
@@ -667,6 +676,9 @@ fn format_literal(
         ast::Literal::Float64(v) if *v == f64::NEG_INFINITY => {
             output.push('-');
             write_infinity_f64(output, context);
+        }
+        ast::Literal::Float64(v) if *v == 0.0 && v.is_sign_negative() => {
+            write!(output, "-0.0L").unwrap()
         }
         ast::Literal::Float64(v) if *v == (*v as i64 as f64) => {
             write!(output, "{}.0L", *v as i64).unwrap()
